@@ -22,7 +22,7 @@ pub struct GraphCase {
 
 /// digraph no. `code` on `n` vertices with `l` labels: digit (v, a) in base n:
 /// 0 = no edge, k = edge to the k-th other vertex.
-pub fn digraph_ops(n: usize, l: usize, mut code: usize, reversed: bool, data: &[Option<u8>], ids: &[usize]) -> Vec<Op> {
+pub fn digraph_ops(n: usize, l: usize, mut code: usize, reversed: bool, interleaved: bool, data: &[Option<u8>], ids: &[usize]) -> Vec<Op> {
     let mut edges = vec![];
     for v in 0..n {
         for a in 0..l {
@@ -41,6 +41,10 @@ pub fn digraph_ops(n: usize, l: usize, mut code: usize, reversed: bool, data: &[
     }
     if reversed {
         edges.reverse();
+    }
+    if interleaved {
+        let (even, odd): (Vec<_>, Vec<_>) = edges.iter().copied().enumerate().partition(|(i, _)| i % 2 == 0);
+        edges = even.into_iter().chain(odd).map(|(_, e)| e).collect();
     }
     for (f, t, a) in edges {
         ops.push(Op::Bind(ids[f], ids[t], a));
@@ -240,6 +244,23 @@ pub fn wide_cases() -> Vec<GraphCase> {
             push(format!("bipartite 3x{}{}", n - 3, if rev { " (reversed insertion)" } else { "" }), bip);
         }
     }
+    // a chain of 20 vertices (more than one group can hold): two groups and a cross-group edge
+    for rev in [false, true] {
+        let n = 20usize;
+        let mut ops: Vec<Op> = (0..n).map(Op::Add).collect();
+        let mut edges: Vec<usize> = (0..15).collect(); // 0->1 ... 14->15 : one group of 16
+        edges.extend(16..19); // 16->17 ... 18->19 : a second group
+        if rev {
+            edges.reverse();
+        }
+        for i in edges {
+            ops.push(Op::Bind(i, i + 1, 0));
+        }
+        ops.push(Op::Bind(15, 16, 1)); // both grouped: no group changes
+        ops.push(Op::Bind(19, 0, 1)); // and back to the start
+        out.push(GraphCase { n: 2, cap: 24, ops, what: format!("chain of 20 across two groups{}", if rev { " (reversed insertion)" } else { "" }) });
+    }
+    let mut push = |what: String, ops: Vec<Op>| out.push(GraphCase { n: 16, cap: 20, ops, what });
     // fans: one vertex with k differently labelled edges onto 1, 2 or 13 targets
     for k in 1..=16usize {
         for targets in [1usize, 2, 13] {
@@ -259,27 +280,30 @@ pub fn run(prop: &'static str, tier: &str) -> (Acc, String) {
     let quick = crate::props::quick(tier);
     let nmax: usize = if quick { 3 } else { 4 };
     let mut cases: Vec<GraphCase> = vec![];
-    let nmax = if prop == "C19" { 4 } else { nmax };
+    let nmax = if prop == "C18" { nmax } else { 4 };
     for n in 1..=nmax {
-        // C19: 4 vertices are needed for two groups to form in one slice; quick uses one label there
-        let l = if prop == "C19" && n == 4 && quick { 1usize } else { 2usize };
+        // 4 vertices are needed for two groups to exist side by side; quick uses one label there
+        let l = if n == 4 && quick { 1usize } else { 2usize };
         let total = n.pow((l * n) as u32);
         for code in 0..total {
-            for rev in [false, true] {
-                if n == 4 && prop != "C13" && rev {
+            for (rev, inter) in [(false, false), (true, false), (false, true)] {
+                if n == 4 && prop != "C13" && prop != "C19" && rev {
                     continue;
+                }
+                if inter && n < 4 {
+                    continue; // with fewer than 4 vertices the order cannot change the grouping
                 }
                 // data placements matter for the exports only
                 let placements: Vec<Vec<Option<u8>>> = if prop == "C18" && n <= 3 {
-                    (0..4usize.pow(n as u32)).map(|mut k| (0..n).map(|_| { let d = k % 4; k /= 4; [None, Some(3u8), Some(1), Some(2)][d] }).collect()).collect()
+                    (0..5usize.pow(n as u32)).map(|mut k| (0..n).map(|_| { let d = k % 5; k /= 5; [None, Some(3u8), Some(1), Some(2), Some(6)][d] }).collect()).collect()
                 } else if prop == "C18" {
-                    vec![vec![None; n], (0..n).map(|i| Some([3u8, 1, 2, 0][i % 4])).collect()]
+                    vec![vec![None; n], (0..n).map(|i| Some([3u8, 1, 2, 6][i % 4])).collect()]
                 } else {
                     vec![vec![None; n]]
                 };
                 for data in placements {
                     let ids: Vec<usize> = if code % 2 == 0 { (0..n).collect() } else { (0..n).map(|i| 2 * i + 1).collect() };
-                    cases.push(GraphCase { n: 2, cap: 2 * n + 2, ops: digraph_ops(n, l, code, rev, &data, &ids), what: format!("digraph {code} on {n} vertices") });
+                    cases.push(GraphCase { n: 2, cap: 2 * n + 2, ops: digraph_ops(n, l, code, rev, inter, &data, &ids), what: format!("digraph {code} on {n} vertices") });
                 }
             }
         }
@@ -298,12 +322,12 @@ pub fn run(prop: &'static str, tier: &str) -> (Acc, String) {
         }
     });
     let rule = format!(
-        "GRAPHGEN: every digraph on 1..={nmax} vertices in which each vertex has, per label of {{α0, x}}, no edge or an edge to one of the other vertices ({} graphs incl. all cyclic shapes and shared targets), built through add/bind in two insertion orders on dense and on gapped ids{}{}",
+        "GRAPHGEN: every digraph on 1..={nmax} vertices in which each vertex has, per label of {{α0, x}}, no edge or an edge to one of the other vertices ({} graphs incl. all cyclic shapes and shared targets), built through add/bind in up to three insertion orders (ascending, reversed, and - from 4 vertices on - every other edge first, so that groups form separately before an edge links them) on dense and on gapped ids{}{}",
         small,
         match prop {
             "C13" => "; for every start vertex: slice() and slice_some() with EVERY subset of the edge set as predicate, under EVERY drain order of slice's work-list (enumerated through the verif choice-point hook); plus wide shapes on Sodg<16> (chains, cycles, stars, bipartite graphs on 12-14 vertices, fans of 1..=16 labelled edges onto 1, 2 or 13 targets)",
             "C19" => "; each graph is built three times in fresh objects (fresh hash seeds) and once as Sodg<16> with capacity 256: every public observable, incl. every slice with the grouping of its vertices as Debug shows it, must be identical",
-            "C18" => "; with every placement of {no data, 1 byte, 9 bytes (heap), empty datum} (n <= 3); to_xml()/to_dot() parsed back and compared with the graph, and all graphs with equal content must give equal text",
+            "C18" => "; with every placement of {no data, 1 byte, 9 bytes (heap), empty datum, 17 bytes} (n <= 3); to_xml()/to_dot() parsed back and compared with the graph, and all graphs with equal content must give equal text",
             _ => "; inspect(v) for every vertex (parsed back into (source,label,target) triples: the edges of all reachable vertices, each exactly once), Debug, Display, v_print(v); plus wide shapes on Sodg<16>",
         },
         ""
